@@ -17,6 +17,8 @@
 #include <iostream>
 #include <stdexcept>
 #include <new>
+#include <locale>
+#include <clocale>
 #include <functional>
 
 #include <string_theory/string>
@@ -182,6 +184,24 @@ inline std::string decoy_token(const std::string &t)
     return r;
 }
 
+// The program around the library may have installed a global C++ locale of its own and selected a C locale other than
+// "C": case folding, character classification and number syntax of the library are specified independently of both.
+// Every harness runs with a global locale whose ctype<char> facet folds the Latin-1 letters as well, and with the
+// C locale "C.UTF-8" (same decimal point, other name).
+struct Latin1Ctype : std::ctype<char> {
+    static bool up(unsigned char u) { return (u >= 'A' && u <= 'Z') || (u >= 0xC0 && u <= 0xDE && u != 0xD7); }
+    static bool lo(unsigned char u) { return (u >= 'a' && u <= 'z') || (u >= 0xE0 && u <= 0xFE && u != 0xF7); }
+    char do_tolower(char c) const override { return up(static_cast<unsigned char>(c)) ? char(static_cast<unsigned char>(c) + 32) : c; }
+    char do_toupper(char c) const override { return lo(static_cast<unsigned char>(c)) ? char(static_cast<unsigned char>(c) - 32) : c; }
+    const char *do_tolower(char *b, const char *e) const override { for (; b != e; ++b) *b = do_tolower(*b); return e; }
+    const char *do_toupper(char *b, const char *e) const override { for (; b != e; ++b) *b = do_toupper(*b); return e; }
+};
+inline void install_foreign_locales()
+{
+    std::locale::global(std::locale(std::locale::classic(), new Latin1Ctype));
+    setlocale(LC_ALL, "C.UTF-8");
+}
+
 // main loop: argv[1] = case file, argv[2] = index of first line to run (default 0)
 inline int run_main(int argc, char **argv, const Dispatch &dispatch)
 {
@@ -193,6 +213,7 @@ inline int run_main(int argc, char **argv, const Dispatch &dispatch)
     size_t idx = 0;
     signal(SIGALRM, on_alarm);
     setvbuf(stdout, nullptr, _IOLBF, 0);
+    install_foreign_locales();
     while (std::getline(in, line)) {
         if (idx++ < from) continue;
         if (line.empty() || line[0] == '#') continue;
